@@ -85,6 +85,28 @@ def build_model():
     return exe
 
 
+def build_race_harness():
+    """the same harness built with the race detector (needs cgo), used by C18 in concurrent mode"""
+    hdir = os.path.join(ROOT, "harness")
+    exe = os.path.join(BUILD, "implrun-race")
+    env = dict(GOENV, CGO_ENABLED="1")
+    rc, out = sh(["go", "build", "-race", "-tags", "verif", "-o", exe, "./cmd/implrun"], cwd=hdir, env=env, timeout=1800)
+    if rc != 0:
+        raise Infra("the race-detector build of the harness failed:\n" + out[-3000:])
+    return exe
+
+
+def run_concurrent(exe, cases, timeout=3600):
+    """all cases in one process: 3 sequential runs each, then 16 goroutines running all of them at once"""
+    data = ("\n".join(enc_case(c) for c in cases) + "\n").encode()
+    env = dict(os.environ, VERIF_MODE="concurrent", GORACE="halt_on_error=0")
+    p = subprocess.run([exe], input=data, stdout=subprocess.PIPE, stderr=subprocess.PIPE, env=env, timeout=timeout)
+    lines = p.stdout.decode("ascii", "replace").split("\n")
+    if lines and lines[-1] == "":
+        lines.pop()
+    return lines, p.stderr.decode("utf-8", "replace"), p.returncode
+
+
 def regen_schema():
     """Regenerate coq/gen/Schema_gen.v from the compiled Go struct types (rewritten only when different)."""
     exe = os.path.join(BUILD, "schemadump")
